@@ -104,7 +104,14 @@ class LayeredSphere(Sphere):
     def __init__(self, n=None, t=None, center=None):
         self.n = ensure_array(n)
         self.t = ensure_array(t)
-        self.center = center
+        CenteredScatterer.__init__(self, center)
+        try:
+            if (self.t < 0).any():
+                raise InvalidScatterer(
+                    self, "layer thicknesses should not be negative")
+        except TypeError:
+            # thicknesses given as priors cannot be compared
+            pass
 
     @property
     def r(self):
